@@ -67,15 +67,17 @@ func (t *Trace) Close() { t.f.Close() }
 // Runner executes model-level operations on a real database and records one event per
 // operation: the operation, its actual arguments/outcome and the projected abstract state.
 type Runner struct {
-	E       *Env
-	Head    common.Hash // root of the top layer of the current branch
-	Tr      *Trace
-	Sum     *tl.Summary
-	R       *rand.Rand
-	Counter int  // last value of the counter account
-	Full    bool // log complete id/recoverable/record listings (small models)
-	Rolled  bool // a rollback succeeded since the stored journal was written
-	Extra   func(ev tl.M)
+	E           *Env
+	Head        common.Hash // root of the top layer of the current branch
+	Tr          *Trace
+	Sum         *tl.Summary
+	R           *rand.Rand
+	Counter     int   // last value of the counter account
+	Full        bool  // log complete id/recoverable/record listings (small models)
+	Rolled      bool  // a rollback succeeded since the stored journal was written
+	LastDiff    []int // diff of the last Update event
+	NoWaitIndex bool  // do not wait for the initial indexing run after a reopen
+	Extra       func(ev tl.M)
 }
 
 func NewRunner(shape Shape, cfg Config, dir string, tr *Trace, sum *tl.Summary, r *rand.Rand) (*Runner, error) {
@@ -272,6 +274,7 @@ func (rn *Runner) Update(j int, n World, touch, recreate map[int]bool) string {
 	if t.Err != nil {
 		ev["err"] = t.Err.Error()
 	}
+	rn.LastDiff = ev["d"].([]int)
 	rn.observe(ev)
 	rn.Tr.Emit(ev)
 	rn.Sum.Count("Update")
@@ -311,7 +314,7 @@ func (rn *Runner) Recover(w World) bool {
 		// a failed rollback that nevertheless moved the disk layer: follow it
 		rn.Head, _, _, _ = rn.E.PDB.VerifHistDisk()
 	}
-	ev := tl.M{"op": "Recover", "w": w, "ok": err == nil, "can": can}
+	ev := tl.M{"op": "Recover", "w": w, "ok": err == nil, "can": can, "kf": ""}
 	if err != nil {
 		ev["err"] = err.Error()
 	}
@@ -346,7 +349,9 @@ func (rn *Runner) reopen(i int, extra tl.M) {
 		rn.Head, _, _, _ = rn.E.PDB.VerifHistDisk()
 		ev["lost"] = true
 	}
-	rn.WaitIndexed()
+	if !rn.NoWaitIndex {
+		rn.WaitIndexed()
+	}
 	rn.observe(ev)
 	rn.Tr.Emit(ev)
 	rn.Sum.Count("Reopen")
